@@ -531,9 +531,12 @@ def playEvict (e : Env) (s : St) (b : Block) : List Nat :=
 def playUndone (e : Env) (s : St) (b : Block) : St :=
   (s.pool.reverse.filter (fun i => (playEvict e s b).contains i)).foldl (fun st i => undoTx e st (e.tx i)) s
 
-theorem play_ok (e : Env) (s : St) (lh : Int) (b : Block) (h : (play e s lh b).2 = .ok) :
-    ∃ s2, applyBlockTxs e lh b.prop (s.pool.filter (fun i => b.txs.contains i)) b.txs (playUndone e s b)
-        = some (s2, .ok) ∧
+/-- shape of an accepted `play`: the block's pending transactions that were not rolled back with an evicted one are
+skipped, the others applied -/
+theorem play_ok_raw (e : Env) (s : St) (lh : Int) (b : Block) (h : (play e s lh b).2 = .ok) :
+    ∃ s2, applyBlockTxs e lh b.prop
+        ((s.pool.filter (fun i => b.txs.contains i)).filter (fun i => !(playEvict e s b).contains i))
+        b.txs (playUndone e s b) = some (s2, .ok) ∧
       (play e s lh b).1 =
         { s2 with pointer := b.id, irrev := nextIrrev e.window s.irrev b.height,
                   pool := s.pool.filter (fun i => !b.txs.contains i && !(playEvict e s b).contains i) } := by
@@ -544,12 +547,75 @@ theorem play_ok (e : Env) (s : St) (lh : Int) (b : Block) (h : (play e s lh b).2
     by_cases h2 : blockHasDupInput e b.txs = true
     · rw [if_pos h2] at h; cases h
     · rw [if_neg h2] at h ⊢
-      simp only at h ⊢
-      unfold playUndone playEvict
-      generalize applyBlockTxs e lh b.prop _ b.txs _ = res at h ⊢
-      rcases res with _ | ⟨s2, r⟩
-      · cases h
-      · cases r <;> first | exact ⟨s2, rfl, rfl⟩ | cases h
+      by_cases h3 : parentMissing e s.pool [] b.txs = true
+      · rw [if_pos h3] at h; cases h
+      · rw [if_neg h3] at h ⊢
+        simp only at h ⊢
+        unfold playUndone playEvict
+        generalize applyBlockTxs e lh b.prop _ b.txs _ = res at h ⊢
+        rcases res with _ | ⟨s2, r⟩
+        · cases h
+        · cases r <;> first | exact ⟨s2, rfl, rfl⟩ | cases h
+
+/-- when no evicted transaction is in the block (the block brings the pending transactions its pending members depend
+on), every pending transaction of the block is skipped -/
+theorem play_ok (e : Env) (s : St) (lh : Int) (b : Block) (h : (play e s lh b).2 = .ok)
+    (hev : ∀ x ∈ playEvict e s b, x ∉ b.txs) :
+    ∃ s2, applyBlockTxs e lh b.prop (s.pool.filter (fun i => b.txs.contains i)) b.txs (playUndone e s b)
+        = some (s2, .ok) ∧
+      (play e s lh b).1 =
+        { s2 with pointer := b.id, irrev := nextIrrev e.window s.irrev b.height,
+                  pool := s.pool.filter (fun i => !b.txs.contains i && !(playEvict e s b).contains i) } := by
+  obtain ⟨s2, h1, h2⟩ := play_ok_raw e s lh b h
+  refine ⟨s2, ?_, h2⟩
+  have hf : (s.pool.filter (fun i => b.txs.contains i)).filter (fun i => !(playEvict e s b).contains i)
+      = s.pool.filter (fun i => b.txs.contains i) := by
+    apply List.filter_eq_self.mpr
+    intro x hx
+    have hxb : x ∈ b.txs := by simpa using (List.mem_filter.mp hx).2
+    have : x ∉ playEvict e s b := fun hxe => hev x hxe hxb
+    simpa using this
+  rw [hf] at h1
+  exact h1
+
+/-- an accepted block brings every pending transaction its transactions depend on, before them (repaired
+`processUnconfirmTxs`) -/
+theorem play_ok_parents (e : Env) (s : St) (lh : Int) (b : Block) (h : (play e s lh b).2 = .ok) :
+    parentMissing e s.pool [] b.txs = false := by
+  unfold play at h
+  by_cases h1 : b.pre ≠ some s.pointer
+  · rw [if_pos h1] at h; cases h
+  · rw [if_neg h1] at h
+    by_cases h2 : blockHasDupInput e b.txs = true
+    · rw [if_pos h2] at h; cases h
+    · rw [if_neg h2] at h
+      by_cases h3 : parentMissing e s.pool [] b.txs = true
+      · rw [if_pos h3] at h; cases h
+      · simpa using h3
+
+/-- what `parentMissing = false` says: a cited pending transaction stands earlier in the block -/
+theorem parentMissing_false (e : Env) (pool : List Nat) (before txs : List Nat)
+    (h : parentMissing e pool before txs = false) :
+    ∀ pre i post, txs = pre ++ i :: post → ∀ p ∈ refTxs (e.tx i), p ∈ pool → p ∈ before ++ pre := by
+  induction txs generalizing before with
+  | nil => intro pre i post hsplit; cases pre <;> simp at hsplit
+  | cons a rest ih =>
+    intro pre i post hsplit p hp hpool
+    unfold parentMissing at h
+    simp only [Bool.or_eq_false_iff] at h
+    cases pre with
+    | nil =>
+      simp only [List.nil_append, List.cons.injEq] at hsplit
+      obtain ⟨rfl, _⟩ := hsplit
+      have := h.1
+      simp only [List.any_eq_false, Bool.and_eq_true, Bool.not_eq_true', not_and, Bool.not_eq_false,
+        List.contains_eq_mem, decide_eq_true_eq, decide_eq_false_iff_not, Decidable.not_not] at this
+      simpa using this p hp hpool
+    | cons a' pre' =>
+      simp only [List.cons_append, List.cons.injEq] at hsplit
+      obtain ⟨rfl, hrest⟩ := hsplit
+      have := ih (before ++ [a]) h.2 pre' i post hrest p hp hpool
+      simpa [List.append_assoc] using this
 
 theorem undoFold_lookup_none (e : Env) (ev : List Nat) (s : St) (k : Ver)
     (hk : ∀ t ∈ ev, ∀ r ∈ (e.tx t).ins, (r.tx, r.off) ≠ k) (h : lookup s.U k = none) :
@@ -580,5 +646,17 @@ theorem dependsOn_parent_mem (e : Env) (pool : List Nat) (c p : Nat) (h : depend
   unfold dependsOn at h
   simp only [Bool.and_eq_true, List.contains_eq_mem, decide_eq_true_eq] at h
   exact h.1.2
+
+/-- if the block brings every pending transaction its pending members depend on, nothing of the block is evicted -/
+theorem playEvict_outside (e : Env) (s : St) (b : Block)
+    (hdeps : ∀ c ∈ b.txs, c ∈ s.pool → ∀ p ∈ s.pool, dependsOn e s.pool c p = true → p ∈ b.txs) :
+    ∀ x ∈ playEvict e s b, x ∈ s.pool ∧ x ∉ b.txs := by
+  apply closure_induct e s.pool (fun x => x ∈ s.pool ∧ x ∉ b.txs)
+  · intro x hx
+    have h1 := (List.mem_filter.mp hx).1
+    have h2 := List.mem_filter.mp h1
+    exact ⟨h2.1, by simpa using h2.2⟩
+  · intro c hc p hp hd
+    exact ⟨hc, fun hct => hp.2 (hdeps c hct hc p (dependsOn_parent_mem e s.pool c p hd) hd)⟩
 
 end XV.Chain
